@@ -12,6 +12,7 @@
 namespace vf {
 
 typedef long double ld;
+typedef Eigen::Index Index;
 typedef std::complex<long double> cld;
 typedef Eigen::Matrix<ld, Eigen::Dynamic, Eigen::Dynamic> MatL;
 typedef Eigen::Matrix<ld, Eigen::Dynamic, 1> VecL;
